@@ -1,0 +1,228 @@
+//go:build verif
+
+package ssh
+
+import (
+	"math/big"
+	"reflect"
+	"strings"
+)
+
+// Hooks for the /verif harness, property C24 (wire encoding). Add-only; compiled only with -tags verif.
+
+// Ad-hoc struct zoo: real Go types with every field kind the reflection codec supports,
+// with / without a type tag, with '|' alternatives, and with a "rest" field that is not last.
+
+type VerifZooAll struct {
+	B   bool `sshtype:"200"`
+	A4  [4]byte
+	A0  [0]byte
+	U8  uint8
+	U32 uint32
+	U64 uint64
+	S   string
+	Y   []byte
+	N   []string
+	I   *big.Int
+	R   []byte `ssh:"rest"`
+}
+
+type VerifZooNoTag struct {
+	U32 uint32
+	S   string
+	N   []string
+	I   *big.Int
+	B   bool
+}
+
+type VerifZooMulti struct {
+	S string `sshtype:"201|202|0"`
+	I *big.Int
+	J *big.Int
+}
+
+type VerifZooRestMid struct {
+	U8 uint8  `sshtype:"203"`
+	R  []byte `ssh:"rest"`
+	A0 [0]byte
+	R2 []byte `ssh:"rest"`
+	Y  []byte
+}
+
+type VerifZooInts struct {
+	A *big.Int `sshtype:"204"`
+	B *big.Int
+	C *big.Int
+	D uint64
+}
+
+type VerifZooNames struct {
+	N1 []string `sshtype:"205"`
+	N2 []string
+	S  string
+	N3 []string
+}
+
+type VerifZooBytes struct {
+	Y1 []byte
+	A1 [1]byte
+	Y2 []byte
+	U8 uint8
+	A7 [7]byte
+}
+
+// VerifNew returns a pointer to a fresh value of the named message struct (nil if unknown).
+func VerifNew(name string) interface{} {
+	switch name {
+	case "disconnectMsg":
+		return new(disconnectMsg)
+	case "kexInitMsg":
+		return new(kexInitMsg)
+	case "kexDHInitMsg":
+		return new(kexDHInitMsg)
+	case "kexECDHInitMsg":
+		return new(kexECDHInitMsg)
+	case "kexECDHReplyMsg":
+		return new(kexECDHReplyMsg)
+	case "kexDHReplyMsg":
+		return new(kexDHReplyMsg)
+	case "kexDHGexGroupMsg":
+		return new(kexDHGexGroupMsg)
+	case "kexDHGexInitMsg":
+		return new(kexDHGexInitMsg)
+	case "kexDHGexReplyMsg":
+		return new(kexDHGexReplyMsg)
+	case "kexDHGexRequestMsg":
+		return new(kexDHGexRequestMsg)
+	case "serviceRequestMsg":
+		return new(serviceRequestMsg)
+	case "serviceAcceptMsg":
+		return new(serviceAcceptMsg)
+	case "extInfoMsg":
+		return new(extInfoMsg)
+	case "userAuthRequestMsg":
+		return new(userAuthRequestMsg)
+	case "userAuthSuccessMsg":
+		return new(userAuthSuccessMsg)
+	case "userAuthFailureMsg":
+		return new(userAuthFailureMsg)
+	case "userAuthBannerMsg":
+		return new(userAuthBannerMsg)
+	case "userAuthInfoRequestMsg":
+		return new(userAuthInfoRequestMsg)
+	case "channelOpenMsg":
+		return new(channelOpenMsg)
+	case "channelDataMsg":
+		return new(channelDataMsg)
+	case "channelOpenConfirmMsg":
+		return new(channelOpenConfirmMsg)
+	case "channelOpenFailureMsg":
+		return new(channelOpenFailureMsg)
+	case "channelRequestMsg":
+		return new(channelRequestMsg)
+	case "channelRequestSuccessMsg":
+		return new(channelRequestSuccessMsg)
+	case "channelRequestFailureMsg":
+		return new(channelRequestFailureMsg)
+	case "channelCloseMsg":
+		return new(channelCloseMsg)
+	case "channelEOFMsg":
+		return new(channelEOFMsg)
+	case "globalRequestMsg":
+		return new(globalRequestMsg)
+	case "globalRequestSuccessMsg":
+		return new(globalRequestSuccessMsg)
+	case "globalRequestFailureMsg":
+		return new(globalRequestFailureMsg)
+	case "windowAdjustMsg":
+		return new(windowAdjustMsg)
+	case "userAuthPubKeyOkMsg":
+		return new(userAuthPubKeyOkMsg)
+	case "userAuthGSSAPIResponse":
+		return new(userAuthGSSAPIResponse)
+	case "userAuthGSSAPIToken":
+		return new(userAuthGSSAPIToken)
+	case "userAuthGSSAPIMIC":
+		return new(userAuthGSSAPIMIC)
+	case "userAuthGSSAPIErrTok":
+		return new(userAuthGSSAPIErrTok)
+	case "userAuthGSSAPIError":
+		return new(userAuthGSSAPIError)
+	case "pingMsg":
+		return new(pingMsg)
+	case "pongMsg":
+		return new(pongMsg)
+	case "VerifZooAll":
+		return new(VerifZooAll)
+	case "VerifZooNoTag":
+		return new(VerifZooNoTag)
+	case "VerifZooMulti":
+		return new(VerifZooMulti)
+	case "VerifZooRestMid":
+		return new(VerifZooRestMid)
+	case "VerifZooInts":
+		return new(VerifZooInts)
+	case "VerifZooNames":
+		return new(VerifZooNames)
+	case "VerifZooBytes":
+		return new(VerifZooBytes)
+	}
+	return nil
+}
+
+// VerifDecode exposes the packet decoder.
+func VerifDecode(packet []byte) (interface{}, error) { return decode(packet) }
+
+// VerifErrClass maps an Unmarshal/decode error to the small enum the property talks about:
+// "type" (wrong message type), "short" (input ends inside a field), "parse" (empty input or trailing bytes).
+func VerifErrClass(err error) string {
+	switch {
+	case err == nil:
+		return ""
+	case err == errShortRead:
+		return "short"
+	case strings.HasPrefix(err.Error(), "ssh: unmarshal error for field"):
+		return "short"
+	case strings.HasPrefix(err.Error(), "ssh: unexpected message type"):
+		return "type"
+	case strings.HasPrefix(err.Error(), "ssh: parse error in message type"):
+		return "parse"
+	}
+	return "other"
+}
+
+// VerifMarshalInt runs intLength and marshalInt separately: marshalInt writes into a buffer that is
+// larger than needed, so the number of bytes it really produces is observable next to intLength's answer.
+func VerifMarshalInt(n *big.Int) (written []byte, length int) {
+	length = intLength(n)
+	buf := make([]byte, length+16)
+	rest := marshalInt(buf, n)
+	return buf[:len(buf)-len(rest)], length
+}
+
+// VerifWriteInt is writeInt (intLength-sized buffer, then marshalInt into it).
+func VerifWriteInt(n *big.Int) []byte {
+	var sb verifSink
+	writeInt(&sb, n)
+	return sb.b
+}
+
+type verifSink struct{ b []byte }
+
+func (s *verifSink) Write(p []byte) (int, error) { s.b = append(s.b, p...); return len(p), nil }
+
+func VerifParseInt(in []byte) (out *big.Int, rest []byte, ok bool) { return parseInt(in) }
+
+func VerifParseNameList(in []byte) (out []string, rest []byte, ok bool) { return parseNameList(in) }
+
+func VerifParseString(in []byte) (out, rest []byte, ok bool) { return parseString(in) }
+
+// VerifTypeTags is typeTags on the struct type behind a pointer returned by VerifNew.
+func VerifTypeTags(ptr interface{}) (tags []byte, panicked bool) {
+	defer func() {
+		if recover() != nil {
+			tags, panicked = nil, true
+		}
+	}()
+	return typeTags(reflect.TypeOf(ptr).Elem()), false
+}
